@@ -3639,7 +3639,18 @@ pub fn lift_fn(ctx: &mut Ctx, blk: &Block) -> Result<(String, Value), String> {
         let k = f.block.stmts.iter().position(|st| matches!(st, syn::Stmt::Local(l) if matches!(&l.pat, syn::Pat::Ident(pi) if pi.ident == from)
             || matches!(&l.pat, syn::Pat::Type(pt) if matches!(&*pt.pat, syn::Pat::Ident(pi) if pi.ident == from))));
         let Some(k) = k else { return Err(format!("lost anchor: no binding of `{from}` in {path}")) };
-        let stmts: Vec<syn::Stmt> = f.block.stmts[k..].to_vec();
+        // L28c `until=<local> outs=a,b`: the segment ends before the binding of <local>; its value is the tuple of the
+        // listed variables (one variable: that variable)
+        let mut stmts: Vec<syn::Stmt> = f.block.stmts[k..].to_vec();
+        if let Some(until) = blk.opt("until") {
+            let ku = f.block.stmts.iter().skip(k).position(|st| matches!(st, syn::Stmt::Local(l) if matches!(&l.pat, syn::Pat::Ident(pi) if pi.ident == until)
+                || matches!(&l.pat, syn::Pat::Type(pt) if matches!(&*pt.pat, syn::Pat::Ident(pi) if pi.ident == until))));
+            let Some(ku) = ku else { return Err(format!("lost anchor: no binding of `{until}` after `{from}` in {path}")) };
+            stmts.truncate(ku);
+            let outs: Vec<&str> = blk.opt("outs").ok_or("lift: until= needs outs=<a,b,..>")?.split(',').map(|x| x.trim()).filter(|x| !x.is_empty()).collect();
+            let tail_expr: syn::Expr = syn::parse_str(&if outs.len() == 1 { outs[0].to_string() } else { format!("({})", outs.join(", ")) }).map_err(|e| e.to_string())?;
+            stmts.push(syn::Stmt::Expr(tail_expr, None));
+        }
         params.clear();
         for kv in blk.opt("tail_locals").unwrap_or("").split(';').filter(|x| !x.is_empty()) {
             let (n, t) = kv.split_once(':').ok_or("tail_locals=name:type;...")?;
@@ -4206,7 +4217,7 @@ pub fn lift_fn(ctx: &mut Ctx, blk: &Block) -> Result<(String, Value), String> {
         };
         let body = l.stmts_with_cont(&fblock.stmts, None)?;
         let rty = if observe.is_some() || ret_ty.contains('?') { body.ty.clone() } else { ret_ty.clone() };
-        if observe.is_none() && body.ty != ret_ty && !body.ty.contains('?') && !ret_ty.contains('?') {
+        if observe.is_none() && body.ty.replace(' ', "") != ret_ty.replace(' ', "") && !body.ty.contains('?') && !ret_ty.contains('?') {
             return Err(format!("construct outside rule list (lift): body of {path} has type {} but the signature says {}", body.ty, ret_ty));
         }
         for h in &l.havocs {
